@@ -134,6 +134,13 @@ inductive Err
   | hang          -- fuel exhausted
   deriving DecidableEq, Repr, Inhabited
 
+instance : DecidableEq (Except Err Unit)
+  | .ok (), .ok () => isTrue rfl
+  | .error a, .error b =>
+    if h : a = b then isTrue (by rw [h]) else isFalse (fun e => h (by injection e))
+  | .ok _, .error _ => isFalse (fun e => by cases e)
+  | .error _, .ok _ => isFalse (fun e => by cases e)
+
 def Err.name : Err → String
   | .wrongLen => "wronglen" | .tooBig => "toobig" | .notAscending => "notasc"
   | .notBalanced => "notbal" | .noMatch => "nomatch" | .branch => "branch"
@@ -279,14 +286,18 @@ def uBuild (C : UCfg) (P : Params) (ep : Nat → Nat × Nat) : List Nat → Nat 
       uBuild C P ep xs (n+1) (some x)
         { uvs := uvs2, prev := prev2, head := head2, x0 := s.x0 ^^^ u, x1 := s.x1 ^^^ v }
 
+/-- `if prev[a] == 2*size { prev[a] = v }` -/
+def circ1 (nil : Nat) (prev : Nat → Nat) (a v : Nat) : Nat → Nat :=
+  if prev a = nil then upd prev a v else prev
+
 /-- "make prev lists circular": `for n in 0..size { if prev[2n] == 2*size {..}; if prev[2n+1] == 2*size {..} }` -/
 def uCirc (C : UCfg) (P : Params) (size : Nat) (s : USt) : Nat → (Nat → Nat) → (Nat → Nat)
   | 0, prev => prev
   | m+1, prev =>
     -- iteration n = size - (m+1)
     let n := size - (m+1)
-    let prev := if prev (2*n) = 2*size then upd prev (2*n) (s.head (C.key P.bk 0 (s.uvs (2*n)))) else prev
-    let prev := if prev (2*n+1) = 2*size then upd prev (2*n+1) (s.head (C.key P.bk 1 (s.uvs (2*n+1)))) else prev
+    let prev := circ1 (2*size) prev (2*n) (s.head (C.key P.bk 0 (s.uvs (2*n))))
+    let prev := circ1 (2*size) prev (2*n+1) (s.head (C.key P.bk 1 (s.uvs (2*n+1))))
     uCirc C P size s m prev
 
 /-- inner `loop { k = prev[k]; if k == i {break}; if match { if j != i {branch}; j = k } }` -/
